@@ -32,9 +32,9 @@ import lib
 from lib import coq_list
 
 COQ_TARGETS = ["theories/Proofs/SerdesLemmas.vo", "theories/Model/SerdesEq.vo"]
-THEOREMS = ["C14_full_refuted", "C14_decode_carriers", "C14_load_carriers", "C14_carriers", "C14_json_text", "C14_literal_text",
+THEOREMS = ["C14_full_holds", "C14_full_pinned_refuted", "C14_decode_carriers", "C14_load_carriers", "C14_carriers", "C14_json_text", "C14_literal_text",
             "C14_load_json", "C14_load_plain_text", "C14_load_nontext",
-            "C14_refuted_bytearray", "C14_refuted_literal", "C14_refuted_resource"]
+            "C14_refuted_bytearray", "C14_literal_carriers", "C14_refuted_resource"]
 CARRIERS = ["CStr", "CBytes", "CBytearray", "CMemviewRO", "CMemviewRW"]
 BIN = CARRIERS[1:]
 
